@@ -56,9 +56,13 @@ enum Frame {
         to: V,
         step: V,
         resume: Pos,
+        /// which typed line was current when the frame was pushed (resuming into a direct line
+        /// that has been replaced since is not settled)
+        serial: u64,
     },
     Gosub {
         resume: Pos,
+        serial: u64,
     },
 }
 
@@ -151,6 +155,9 @@ pub struct Ref {
     cont_after_error: bool,
     /// the last END was followed only by lines without code: whether CONT can go on is not settled
     cont_end_grey: bool,
+    /// number of direct lines typed so far
+    direct_serial: u64,
+    residue_grey: bool,
     /// the DATA position after an edit is not settled by the manual
     data_unknown: bool,
 }
@@ -266,6 +273,8 @@ impl Ref {
             bad_streak: 0,
             cont_after_error: false,
             cont_end_grey: false,
+            direct_serial: 0,
+            residue_grey: false,
             data_unknown: false,
         };
         r.set_program(prog);
@@ -296,6 +305,10 @@ impl Ref {
     /// An edit typed at the prompt: new program text, pending execution state discarded,
     /// DATA position unknown until RUN / CLEAR / RESTORE.
     pub fn edit_program(&mut self, prog: &Program) {
+        if *prog == self.prog {
+            // nothing is typed for an edit that changes nothing
+            return;
+        }
         self.set_program(prog);
         self.stack.clear();
         self.data_unknown = true;
@@ -1198,7 +1211,14 @@ impl Ref {
                 Ok(Flow::Next) => pos = next,
                 Ok(Flow::Jump(p)) => pos = p,
                 Ok(Flow::Stop(e)) => return e,
-                Err(e) => return self.fail(e, pos.place),
+                Err(e) => {
+                    if matches!(stmt, Stmt::OnGosub(..)) && matches!(pos.place, Place::Prog(_)) {
+                        // what a failed ON..GOSUB leaves on the stack for the rest of the session
+                        // (its return address may or may not be there) is not settled
+                        self.residue_grey = true;
+                    }
+                    return self.fail(e, pos.place);
+                }
             }
         }
     }
@@ -1297,7 +1317,7 @@ impl Ref {
             },
             Stmt::Gosub(t) => match self.resolve(t) {
                 Some(i) => {
-                    self.stack.push(Frame::Gosub { resume: next });
+                    self.stack.push(Frame::Gosub { resume: next, serial: self.direct_serial });
                     if self.stack.len() > 10_000 {
                         self.grey("deep GOSUB nesting (exhaustion is not modelled here)");
                     }
@@ -1309,9 +1329,9 @@ impl Ref {
             Stmt::Return => loop {
                 match self.stack.pop() {
                     None => return Err("RETURN WITHOUT GOSUB"),
-                    Some(Frame::Gosub { resume }) => {
-                        if resume.place == Place::Direct && in_prog {
-                            // returning into the direct line that called the subroutine
+                    Some(Frame::Gosub { resume, serial }) => {
+                        if resume.place == Place::Direct && serial != self.direct_serial {
+                            self.grey("RETURN into a direct line that has been replaced since");
                         }
                         return Ok(Flow::Jump(resume));
                     }
@@ -1330,7 +1350,7 @@ impl Ref {
                 match self.resolve(&ts[n as usize - 1]) {
                     Some(i) => {
                         if matches!(s, Stmt::OnGosub(..)) {
-                            self.stack.push(Frame::Gosub { resume: next });
+                            self.stack.push(Frame::Gosub { resume: next, serial: self.direct_serial });
                             self.max_depth = self.max_depth.max(self.stack.len());
                         }
                         Ok(Flow::Jump(self.start_of(i)))
@@ -1375,7 +1395,9 @@ impl Ref {
                         self.grey("FOR step not exact in the loop variable's type");
                     }
                 }
+                let serial_now = self.direct_serial;
                 self.stack.push(Frame::For {
+                    serial: serial_now,
                     var: name,
                     to: y,
                     step: z,
@@ -1406,15 +1428,25 @@ impl Ref {
                             _ => return Err("NEXT WITHOUT FOR"),
                         }
                     }
-                    let (var, to, step, resume) = match self.stack.last() {
+                    let (var, to, step, resume, stale) = match self.stack.last() {
                         Some(Frame::For {
                             var,
                             to,
                             step,
                             resume,
-                        }) => (var.clone(), to.clone(), step.clone(), *resume),
+                            serial,
+                        }) => (
+                            var.clone(),
+                            to.clone(),
+                            step.clone(),
+                            *resume,
+                            resume.place == Place::Direct && *serial != self.direct_serial,
+                        ),
                         _ => unreachable!(),
                     };
+                    if stale {
+                        self.grey("NEXT into a direct line that has been replaced since");
+                    }
                     let lv = LVal::scalar(&var);
                     let cur = self.read_lval(&lv)?;
                     let sum = self.arith(BinOp::Add, cur, step.clone())?;
@@ -1872,6 +1904,14 @@ impl Ref {
             self.stack.clear();
             self.ready();
             return Ended::Ready;
+        }
+        self.direct_serial += 1;
+        if self.residue_grey {
+            if matches!(stmts.first(), Some(Stmt::Run(_)) | Some(Stmt::Clear)) {
+                self.residue_grey = false;
+            } else if stmts.iter().any(|s| !matches!(s, Stmt::Tron | Stmt::Troff | Stmt::Print { .. })) {
+                self.grey("session continued (without RUN / CLEAR) after a failed ON..GOSUB");
+            }
         }
         self.direct.clear();
         let mut v = vec![];
